@@ -1,6 +1,7 @@
 import Driver.Proto
 import Driver.Hb
 import Driver.Fl
+import Driver.Ev
 /-! Model driver: one request per line on stdin, one answer per line on stdout. -/
 open Drv
 
@@ -8,6 +9,7 @@ def dispatch (line : String) : String :=
   match (line.splitOn " ").filter (· ≠ "") with
   | "hb" :: r => Hb.handle r
   | "fl" :: r => Fl.handle r
+  | "ev" :: r => Ev.handle r
   | [] => "bad empty"
   | a :: _ => s!"bad area {a}"
 
